@@ -42,6 +42,7 @@ Example C20_scalar_position_nonvacuous :
              displayed_cell (im_rows im) (im_extent im) None (3 # 2) (1 # 2) = None /\
              displayed_cell (im_rows im) (im_extent im) None (7 # 2) (3 # 2) = Some 7.
 Proof. eexists. split; [vm_compute; reflexivity|]. split; vm_compute; reflexivity. Qed.
+Print Assumptions C20_scalar_position_nonvacuous.
 
 (* hiding, default filter: NaN iff the cell is invalid; valid cells carry their own value *)
 Theorem C20_hidden_default : forall f r c, (r < n1 f)%nat -> (c < n0 f)%nat ->
